@@ -1,8 +1,9 @@
 /-
 Driver for C36. Trace lines of one case:
-  n <readers>
+  n <readers> [<configuration: sql | mixed-cold | mixed-default>]
   op r <i> <ok|fail> <rollbacks>     -- implementation: Read on reader i, release count afterwards
   op c <i> <ok|err> <rollbacks>      -- implementation: Close on reader i
+  op x <i> <ok|err> <rollbacks>      -- Close on reader i while the part reader's own Close reports an error
 The driver (1) runs `Pithos.Streams.step true` on the same word and compares (tie), and
 (2) judges the observed trace against the property itself.
 -/
@@ -14,16 +15,20 @@ structure Obs where
   op : Op
   ok : Bool
   rollbacks : Nat
+  /-- the part reader's own Close was made to report an error: the result of this Close is
+      unspecified, the reader counts as closed all the same -/
+  innerFails : Bool := false
 
 def parseObs (l : String) : Option Obs :=
   match tokens l with
-  | ["op", "r", i, r, rb] => some ⟨.read i.toNat!, r == "ok", rb.toNat!⟩
-  | ["op", "c", i, r, rb] => some ⟨.close i.toNat!, r == "ok", rb.toNat!⟩
+  | ["op", "r", i, r, rb] => some ⟨.read i.toNat!, r == "ok", rb.toNat!, false⟩
+  | ["op", "c", i, r, rb] => some ⟨.close i.toNat!, r == "ok", rb.toNat!, false⟩
+  | ["op", "x", i, r, rb] => some ⟨.close i.toNat!, r == "ok", rb.toNat!, true⟩
   | _ => none
 
 def judgeCase (_k : Nat) (lines : List String) : Verdict := Id.run do
   let n := match lines.head?.map tokens with
-    | some ["n", n] => n.toNat!
+    | some ("n" :: n :: _) => n.toNat!
     | _ => 0
   let obs := (lines.drop 1).filterMap parseObs
   if obs.length + 1 ≠ lines.length then
@@ -38,10 +43,11 @@ def judgeCase (_k : Nat) (lines : List String) : Verdict := Id.run do
   for o in obs do
     let (s', out) := step true s o.op
     -- tie: model vs implementation
-    match out with
-    | .ok => if !o.ok then div := div ++ [s!"op{idx}:model=ok,impl=fail"]
-    | .fail => if o.ok then div := div ++ [s!"op{idx}:model=fail,impl=ok"]
-    | .unspecified => pure ()
+    if !o.innerFails then
+      match out with
+      | .ok => if !o.ok then div := div ++ [s!"op{idx}:model=ok,impl=fail"]
+      | .fail => if o.ok then div := div ++ [s!"op{idx}:model=fail,impl=ok"]
+      | .unspecified => pure ()
     if s'.rollbacks ≠ o.rollbacks then
       div := div ++ [s!"op{idx}:model-rollbacks={s'.rollbacks},impl={o.rollbacks}"]
     -- judge: the property on the observed trace alone
@@ -52,7 +58,7 @@ def judgeCase (_k : Nat) (lines : List String) : Verdict := Id.run do
         vio := vio ++ [("C36.open-reader-failed", s!"op{idx}:read-of-open-reader-{i}-failed")]
     | .close i =>
       if closedImpl.getD i true then reclose := reclose + 1
-      else if !o.ok then
+      else if !o.ok && !o.innerFails then
         vio := vio ++ [("C36.first-close-failed", s!"op{idx}:first-close-of-reader-{i}-failed")]
       closedImpl := closedImpl.set i true
     let allc := closedImpl.all id
